@@ -270,6 +270,10 @@ static ares_bool_t ares_addr_equal(const struct ares_addr *addr1,
   }
 
   switch (addr1->family) {
+    case AF_UNSPEC:
+      /* The local address is not known (socket functions without
+       * agetsockname): there is nothing to tell the two apart */
+      return ARES_TRUE;
     case AF_INET:
       if (memcmp(&addr1->addr.addr4, &addr2->addr.addr4,
                  sizeof(addr1->addr.addr4)) == 0) {
